@@ -1444,4 +1444,5 @@ func runC14(o *Out, r *rand.Rand, thorough bool, _ []string) {
 	}
 
 	runC14Generic(o, r, thorough)
+	runC14Big(o, thorough)
 }
